@@ -95,11 +95,12 @@ def _b(x):
 class SInt:
     """symbolic integer over z3 Int (mathematical, like Python's int) or BitVec (when the code under
     test uses & | ^ << >>)."""
-    __slots__ = ('e', 'name')
+    __slots__ = ('e', 'name', 'small')
 
-    def __init__(self, e, name=None):
+    def __init__(self, e, name=None, small=None):
         self.e = e
         self.name = name
+        self.small = small    # (lo, hi): small finite domain, may be concretised by forking (list index)
 
     # -- helpers
     def _isbv(self):
@@ -171,7 +172,13 @@ class SInt:
         return _cur.decide(self.e != 0)
 
     def __index__(self):
-        raise Unsupported('symbolic int used as index')
+        if self.small is None:
+            raise Unsupported('symbolic int used as index')
+        lo, hi = self.small
+        for k in range(lo, hi - 1):
+            if _cur.decide(self.e == k):
+                return k
+        return hi - 1
 
     # -- arithmetic
     def _arith(self, o, f):
@@ -458,8 +465,9 @@ class SymCtx:
         return True
 
     # -- inputs
-    def fresh_int(self, name, lo=None, hi=None):
-        """symbolic integer with lo <= v < hi (either may be None = unbounded)"""
+    def fresh_int(self, name, lo=None, hi=None, small=False):
+        """symbolic integer with lo <= v < hi (either may be None = unbounded); small=True marks a small
+        finite domain that may be concretised by forking when the code uses the value as an index"""
         assert name not in self.vars, name
         v = z3().Int(name)
         self.vars[name] = v
@@ -469,7 +477,7 @@ class SymCtx:
             self.s.add(v < hi)
         if lo is not None or hi is not None:
             self.model = None
-        return SInt(v, name)
+        return SInt(v, name, (lo, hi) if small else None)
 
     def fresh_bv(self, name, bits):
         assert name not in self.vars, name
@@ -584,7 +592,7 @@ class ConcreteCtx:
         self.str_used = 0
         self.choices = []
 
-    def fresh_int(self, name, lo=None, hi=None):
+    def fresh_int(self, name, lo=None, hi=None, small=False):
         v = self.a['vars'].get(name)
         if v is None:
             v = lo if lo is not None else 0
